@@ -36,6 +36,10 @@ type Op struct {
 	// Race: do not wait for a parked post-rotation flush before the shutdown: the process "exits" (directory image
 	// taken) right after Close returned, and the store is restarted from that image.
 	Race bool `json:"race,omitempty"`
+	// Jump (reopen): while the store is down, the newest data file of each single-bucket store is renamed to an id that
+	// is Jump higher (all index files removed: they are rebuilt): the layout of a store whose earlier files were
+	// collected long ago, with file ids in the hundreds
+	Jump int `json:"jump,omitempty"`
 	// gc
 	Bucket int  `json:"b,omitempty"`
 	Begin  int  `json:"begin,omitempty"`
@@ -843,9 +847,28 @@ func (r *histRunner) doReopen(op *Op) error {
 		r.store = nil
 	}
 	_ = raced
+	mask := op.Mask
+	if op.Jump > 0 && r.h.Cfg.NumBucket == 1 && len(r.h.Cfg.Groups) == 0 { // collision.yaml names positions: it is not an index file that may go
+		paths, _ := filepath.Glob(filepath.Join(r.home, "*.data"))
+		sort.Strings(paths)
+		if n := len(paths); n > 0 {
+			var id int
+			fmt.Sscanf(filepath.Base(paths[n-1]), "%03d.data", &id)
+			if to := id + op.Jump; to <= 985 {
+				if err := os.Rename(paths[n-1], filepath.Join(r.home, fmt.Sprintf("%03d.data", to))); err != nil {
+					return infraf("rename data file: %v", err)
+				}
+				mask = "all"
+				r.label("file_id_jump")
+				if to >= 256 {
+					r.label("file_id>=256")
+				}
+			}
+		}
+	}
 	files := indexFiles(r.home)
 	var del []string
-	switch op.Mask {
+	switch mask {
 	case "", "none":
 	case "all":
 		del = files
